@@ -516,3 +516,39 @@ var Decoder = harness.Define(harness.Opts{
 	Rule:  "(leaf_input, extra_data) built by the reference encoder from a generated PKI chain (x509 or precert, with / without pre-issuer; a leaf with a non-fatal parse complaint; 1-40 random bytes in place of the certificate / TBS) or 0-80 + 0-40 random bytes, under 0-3 edits (set / insert / delete byte, truncate, append, version / leaf type / entry type codes incl. 0x8000, length fields +-1..3, extra_data of the other entry type, empty / absent extra_data); ct.RawLogEntryFromLeaf and ct.LogEntryFromLeaf judged against internal/rfc6962 (accept <=> both parts decode completely and, for LogEntryFromLeaf, the certificate parse is non-fatal; on accept tls.Marshal(entry.Leaf) == leaf_input, chain / submitted precertificate / index equal the reference). Non-trivial: >= 1 edit or a base other than a clean chain",
 	Quick: 6000, Thorough: 20000,
 }, genDec, checkDec)
+
+// laxify rewrites a certificate (or a bare TBSCertificate) into a shape that only the relaxed ASN.1
+// rules accept: 1 = serialNumber INTEGER with a superfluous leading zero octet, 2 = a Latin-1 octet
+// inside the subject's PrintableString, 3 = an extra extension whose OID has no content octets. The
+// signature is not re-made: the entry decoder never checks it.
+func laxify(der []byte, isTBS bool, shape int) []byte {
+	n := derx.MustParse(der).Clone()
+	tbs := n
+	if !isTBS {
+		tbs = n.Children[0]
+	}
+	base := 0
+	if tbs.Children[0].Tag() == 0xa0 {
+		base = 1
+	}
+	switch shape {
+	case 1:
+		s := tbs.Children[base]
+		s.Content = append([]byte{0}, s.Content...)
+	case 2:
+		done := false
+		tbs.Children[base+4].Walk(func(x *derx.Node) {
+			if !done && x.Tag() == derx.TagPrintable && len(x.Content) > 0 {
+				x.Content[0] = 0xe9
+				done = true
+			}
+		})
+	case 3:
+		for _, k := range tbs.Children {
+			if k.Tag() == 0xa3 && len(k.Children) == 1 {
+				k.Children[0].Children = append(k.Children[0].Children, derx.MustParse(derx.Seq(derx.TLV(derx.TagOID), derx.Octets([]byte{5, 0}))))
+			}
+		}
+	}
+	return n.Encode()
+}
